@@ -12,7 +12,7 @@ use serde_json::{json, Value};
 use std::io::Write;
 use vph::refdec;
 
-pub const RULE: &str = "for each writer front-end × declared/undeclared total × seek policy {off, every frame, seconds} × padding {default 4096, none, 20} × channels/depth {1×16, 2×8, 2×24}: 3.5 blocks of 16 PCM frames are written without finalize, plus histories where the caller supplies more or fewer PCM frames than it declared ((supplied, declared) ∈ {(56,40),(48,40),(56,33),(40,17),(33,32),(56,100)}) and stops at the first error; for EVERY byte prefix of the emitted stream (a superset of every write-call boundary) each of the byte, sample and channel readers must deliver exactly the PCM of the frames that lie completely inside the prefix (frame extents from the independent decoder run on a copy whose provisional total is cleared, i.e. without trusting STREAMINFO), in order, and then report end of data or an error; a prefix ending inside the metadata yields no samples";
+pub const RULE: &str = "for each writer front-end × declared/undeclared total × seek policy {off, every frame, seconds} × padding {default 4096, none, 20} × channels/depth {1×16, 2×8, 2×24} (+ STREAMINFO-referenced parameters: 10-bit, 17-bit at rate 0, 100001 Hz): 3.5 blocks of 16 PCM frames are written without finalize, plus histories where the caller supplies more or fewer PCM frames than it declared ((supplied, declared) ∈ {(56,40),(48,40),(56,33),(40,17),(33,32),(56,100)}) and stops at the first error; for EVERY byte prefix of the emitted stream (a superset of every write-call boundary) each of the byte, sample and channel readers must deliver exactly the PCM of the frames that lie completely inside the prefix (frame extents from the independent decoder run on a copy whose provisional total is cleared, i.e. without trusting STREAMINFO), in order, and then report end of data or an error; a prefix ending inside the metadata yields no samples";
 pub const ASSUMPTIONS: &[&str] = &["the pre-finalize write log is verified to be append-only at run time (otherwise prefixes would not be the crash images and the check reports a machinery note)", "torn writes inside one write call are covered because every byte prefix is explored; reordering of writes by the OS is out of scope (no syncs exist to order against)"];
 pub fn bounds(_quick: bool) -> Value {
     json!({"prefixes": "every byte prefix", "blocks": "3 complete frames emitted + half a block buffered"})
@@ -131,6 +131,12 @@ fn configs() -> Vec<(WriterKind, Opt, Sig, usize, Option<usize>)> {
                         v.push((w, Opt { declared, seek, pad, ..Opt::base16() }, sig, 56, declared.then_some(56)));
                     }
                 }
+            }
+        }
+        // depths / rates without a header code: every frame says "see STREAMINFO"
+        for declared in [true, false] {
+            for sig in [Sig { rate: 44100, bps: 10, ch: 1 }, Sig { rate: 100001, bps: 16, ch: 2 }, Sig { rate: 0, bps: 17, ch: 1 }] {
+                v.push((w, Opt { declared, seek: Seek::Off, pad: Pad::Size(20), ..Opt::base16() }, sig, 56, declared.then_some(56)));
             }
         }
         // the caller supplies more (or fewer) PCM frames than it declared and the encode stops there
